@@ -1,6 +1,56 @@
-(* Runner for property C15: wire arguments -> model -> wire result. Filled in by the C15 model. *)
+(* Runner for property C15: wire arguments -> model -> wire result.
+     c15 accepts ( (rid body)... ) ( ) | ( pid err )  ( (rid seq body final)... )   -> 0/1
+         request list with the standalone operation's output for each request, the ending
+         (end of input, or decode error with echoed id and error body), the observed output.
+     c15 schedule <same arguments>    -> the label list of a schedule producing the output
+                                         (0 = read, 1 = end, (2 k) = send k, 3 = final), or err
+     c15 tags <copying 0/1> ( regime keys... ) <cap> ( ( addon keys... ) ... )
+         -> ( regime backing array after supportedTags, up to capacity ) ( returned keys )       *)
 From Coq Require Import ZArith List String Bool.
-From Verif Require Import Base.Wire.
+From Verif Require Import Base.Wire Conc.Bulk Conc.Slices.
 Import ListNotations.
 
-Definition run_c15 (args : list V) : list V := [verr "not-implemented"].
+Definition rq_of (v : V) : bytes * bytes :=
+  match v with VL [a; b] => (vs_ a, vs_ b) | _ => ([], []) end.
+Definition ending_of (v : V) : ending :=
+  match v with VL [a; b] => Bad (vs_ a) (vs_ b) | _ => Eof end.
+Definition reply_of_v (v : V) : reply :=
+  match v with
+  | VL [a; n; b; fl] => mkReply (vs_ a) (vnat n) (vs_ b) (vbool fl)
+  | _ => mkReply [] 0 [] false
+  end.
+Definition vlabel (l : label) : V :=
+  match l with LRead => VI 0 | LEnd => VI 1 | LSend k => VL [VI 2; VN k] | LFinal => VI 3 end.
+
+Definition tags_run (copying : bool) (rk : list Z) (c : nat) (adks : list (list Z)) : list V :=
+  let n := List.length rk in
+  let c' := Nat.max c n in
+  let h0 := mkHeap ((rk ++ repeat 0%Z (c' - n))%list :: adks) [] [] in
+  let r := mkDef [mkTagset INV (mkSlice 0 0 n c')] [] [] in
+  let ads := map (fun p : nat * list Z => mkDef [mkTagset INV (mkSlice (S (fst p)) 0 (List.length (snd p)) (List.length (snd p)))] [] [])
+                 (combine (List.seq 0%nat (List.length adks)) adks) in
+  let res := supported_tags copying h0 (Some r) ads in
+  [VL (map VI (nth 0 (arrays (fst res)) [])); VL (map VI (read (fst res) (snd res)))].
+
+Definition run_c15 (args : list V) : list V :=
+  match args with
+  | o :: rest =>
+    let op := opname o in
+    if String.eqb op "accepts" || String.eqb op "schedule" then
+      match rest with
+      | [rq; e; ob] =>
+        let i := mkInput (bytes * bytes) (map rq_of (vl rq)) (ending_of e) in
+        let outp := map reply_of_v (vl ob) in
+        if String.eqb op "accepts" then [VB (accepts _ fst snd i outp)]
+        else if accepts _ fst snd i outp then [VL (map vlabel (schedule_for _ fst snd i outp))]
+        else [verr "not-accepted"]
+      | _ => [verr "bad-args"]
+      end
+    else if String.eqb op "tags" then
+      match rest with
+      | [cp; rk; c; adks] => tags_run (vbool cp) (map vz (vl rk)) (vnat c) (map (fun a => map vz (vl a)) (vl adks))
+      | _ => [verr "bad-args"]
+      end
+    else [verr "unknown-c15-op"]
+  | [] => [verr "unknown-c15-op"]
+  end.
